@@ -74,11 +74,38 @@ type OnAvPacket func(pkt base.AvPacket)
 // The multiplication is done before the division and in 64 bits: dividing by `clockRate/1000` truncates
 // the divisor for rates that are not a multiple of 1000 (44100 Hz became 44 ticks per millisecond, a drift
 // of 2.3 ms per second) and is a division by zero for rates below 1000.
-func rtpTimestamp2Ms(timestamp uint32, clockRate int) int64 {
+func rtpTimestamp2Ms(timestamp int64, clockRate int) int64 {
 	if clockRate <= 0 {
-		return int64(timestamp)
+		return timestamp
 	}
-	return int64(uint64(timestamp) * 1000 / uint64(clockRate))
+	return timestamp * 1000 / int64(clockRate)
+}
+
+// rtpClock converts the RTP timestamps of one stream to milliseconds.
+//
+// The timestamp field has 32 bits and wraps around (every 13 h 15 min at 90 kHz, every 27 h at 44.1 kHz).
+// Converting the field itself makes the millisecond value fall back by 2^32*1000/clockRate at every wrap, and
+// rtsp.AvPacketQueue, which sees only milliseconds and cannot know the size of that step, repeats the previous
+// interval between two packets instead - 0 whenever the access unit before the wrap had more than one NAL unit -
+// so that the track is shifted against the other one by a frame interval at every wrap.
+// rtpClock follows the field by its signed steps modulo 2^32, starting from the first value seen, and converts
+// the extended value, which never wraps.
+type rtpClock struct {
+	clockRate int
+	inited    bool
+	last      uint32
+	extended  int64
+}
+
+func (c *rtpClock) ms(timestamp uint32) int64 {
+	if !c.inited {
+		c.inited = true
+		c.extended = int64(timestamp)
+	} else {
+		c.extended += int64(int32(timestamp - c.last))
+	}
+	c.last = timestamp
+	return rtpTimestamp2Ms(c.extended, c.clockRate)
 }
 
 // DefaultRtpUnpackerFactory 目前支持AVC，HEVC和AAC MPEG4-GENERIC，业务方也可以自己实现IRtpUnpackerProtocol，甚至是IRtpUnpackContainer
